@@ -447,6 +447,8 @@ def run(repo, rep):
     rep.run_borrowed(c04, {"C04-d": "C03-g"}, repo)
     rep.clause("C03-t", "memory an operation reads is ordered behind whoever defines it: every address-bearing operand (IFM2 included) enters the access set the waits are computed from, and the LUT special case of the block dependency protects the table of the *previous* operation [rules shared with C04-b, C04-e]")
     rep.run_borrowed(c04, {"C04-b": "C03-t", "C04-e": "C03-t"}, repo)
+    rep.clause("C03-u", "a rolling buffer has the shape of the stripes that are scheduled through it: adopting an optimised sub-schedule replaces operator costs and cascade records together, the new entries taking precedence")
+    rule_sub_schedule_merge(repo, rep)
     rep.run_borrowed(c08, {"C08-f": "C03-g"}, repo)
 
 
@@ -678,3 +680,38 @@ def rule_equivalence_keys(repo, rep):
                               "of the smaller size; the 512-byte int16 zeros are written over a convolution's encoded weights (87 of 1344 weight bytes differ)")
     if n < 5:
         raise AnalysisError(f"create_equivalence_id: {n} call sites for constants placed as they are")
+
+
+def rule_sub_schedule_merge(repo, rep):
+    """(u) when optimize_schedule adopts an optimised sub-schedule it takes over the operator costs (stripes) *and* the cascade records
+    (rolling-buffer shapes) that were built for those stripes. Both merges must give the sub-schedule's entries precedence over the old ones:
+    `old.update(new)` or `{**old, **new}`. A merge in which the old CascadeInfo survives pairs enlarged stripes with the rolling buffers of
+    the MIN schedule - a producer overwrites rows its consumer has not read yet."""
+    sm = repo.mod("scheduler")
+    fn = sm.func("Scheduler.optimize_schedule")
+    site = "ethosu/vela/scheduler.py:Scheduler.optimize_schedule"
+    blocks = [i for i in ast.walk(fn) if isinstance(i, ast.If) and str(norm(i.test)) in ("opt_sub_schedule", "opt_sub_schedule is not None")]
+    if len(blocks) != 1:
+        raise AnalysisError(f"optimize_schedule: {len(blocks)} adoption blocks found")
+    seen = {}
+    for st in blocks[0].body:
+        for member in ("cost_map", "cascades"):
+            tgt = f"schedule.{member}"
+            new = f"opt_sub_schedule.{member}"
+            if isinstance(st, ast.Expr) and isinstance(st.value, ast.Call) and str(norm(st.value.func)) == f"{tgt}.update":
+                seen[member] = (str(norm(st.value.args[0])) == new, str(norm(st)))
+            elif isinstance(st, ast.Assign) and str(norm(st.targets[0])) == tgt:
+                v = st.value
+                ok = False
+                if isinstance(v, ast.Dict) and all(k is None for k in v.keys):
+                    order = [str(norm(x)) for x in v.values]
+                    ok = tgt in order and new in order and order.index(tgt) < order.index(new)
+                elif isinstance(v, ast.BinOp) and isinstance(v.op, ast.BitOr):
+                    ok = str(norm(v.left)) == tgt and str(norm(v.right)) == new
+                seen[member] = (ok, str(norm(st)))
+    for member in ("cost_map", "cascades"):
+        if member not in seen:
+            rep.bad("C03-u", site, f"`schedule.{member}` takes over the optimised sub-schedule's entries", "no merge found in the adoption block")
+        else:
+            rep.check(seen[member][0], "C03-u", site, f"`{seen[member][1][:90]}`: the optimised sub-schedule's entries take precedence",
+                      "the existing entries win: the cascade keeps the rolling-buffer shapes of the schedule it replaces while the cost map gets the enlarged stripes (rolling buffer of 6 rows for 5-row stripes that need 14)")
